@@ -1,4 +1,71 @@
+//! W1n — NTS packet / cookie / keyset world (DESIGN.md §4 "W1", NTS part):
+//! hand-driven and real NTS client sessions talking over `simkit::net::SimNet` to
+//! server nodes running the REAL `ntp_proto::Server` fed by a REAL
+//! `KeySetProvider` that rotates at simulated times. Decides C19, C23, C25, C26.
+
+mod adv;
+mod enum25;
+mod node;
+mod req;
+mod wire;
+mod world;
+
+use simkit::batch::{cli_main, Level, Property, WorldDef};
+
+fn run() {
+    if simkit::focus() == "C25" {
+        enum25::run()
+    } else {
+        world::run()
+    }
+}
+
 fn main() {
-    let ks = ntp_proto::KeySetProvider::new(1);
-    println!("{:?}", ks.get().verif_view().n_keys);
+    let assumptions: &'static [&'static str] = &[
+        "NTS sessions are minted in-crate (random session keys + real KeySet::encode_cookie) instead of by a TLS key exchange (that is world W3)",
+        "the server's rate limiter is configured off (cache size 0); the daemon's socket loop is replaced by direct calls of Server::handle with a reply buffer",
+        "AES-SIV itself (aes-siv crate) is trusted: the harness's independent authenticator check uses the same primitive through its own framing code",
+    ];
+    let p = |id, quick_runs, thorough_runs, rule| Property {
+        id,
+        level: Level::Exploration,
+        quick_runs,
+        thorough_runs,
+        quick_wall_s: 75.0,
+        thorough_wall_s: 720.0,
+        event_cap: 20_000,
+        enumerate: None,
+        rule,
+        assumptions,
+    };
+    let mut c25 = p(
+        "C25",
+        0,
+        0,
+        "one run = one (genuine in-flight NTS packet k, byte position) pair: all 8 single-bit flips and a set of single-byte overwrites at that position are delivered to the real receiver (server keyset for requests, s2c key for responses); the harness's own extension-field walker classifies the position (header / field before the authenticator / nonce / ciphertext = protected; authenticator header and padding, anything after = unprotected)",
+    );
+    c25.level = Level::FaultEnumeration;
+    c25.enumerate = Some(enum25::space);
+    c25.thorough_wall_s = 1500.0;
+    cli_main(WorldDef {
+        name: "w1n",
+        run,
+        properties: vec![
+            p("C19", 60_000, 1_500_000, "one run = one swarm-configured history of 1-4 NTS sessions (v4/v5, both AEADs, 0-7 placeholders, extra fields, stock and hand-built layouts) against 1-2 real servers with key rotations, partitions and network damage; every server answer is judged against the request's ground truth at delivery time"),
+            p("C23", 60_000, 1_500_000, "as C19 with the damage and adversary rates turned up; every datagram is delivered to the receiving node's real receive path (server keyset / NTS session key / no key) under catch_unwind, extended datagrams additionally un-truncated (<= 4096 bytes) to NtpPacket::deserialize in the receiver's key context"),
+            c25,
+            p("C26", 60_000, 1_500_000, "as C19 with stale_key_count in {0,1,2,5}, clients partitioned for 0..history+3 rotations presenting old cookies, a cookie ledger decoded against the real key set after every rotation, per-position cookie tampering and foreign key sets"),
+        ],
+        real_components: &[
+            "ntp_proto::Server::handle (policy, NTS decode, NAK/DENY/time responses, cookie generation)",
+            "ntp_proto::KeySetProvider::rotate / KeySet::{encode_cookie,decode_cookie}",
+            "ntp_proto::NtpPacket::{deserialize,serialize,nts_poll_message,nts_poll_message_v5,nts_timestamp_response}, extension-field codec, AES-SIV cipher wrappers",
+            "ntp_proto::NtpSource (NTS and plain) receive path: handle_timer / handle_incoming",
+        ],
+        stub_components: &[
+            "ntpd ServerTask / SourceTask socket loops -> direct calls with a reply buffer (request-sized or 4096)",
+            "NTS key exchange -> sessions minted in-crate",
+            "kernel clock -> simntp::SimClock",
+        ],
+    })
 }
